@@ -60,6 +60,7 @@ class Report:
         self.t0 = time.time()
         self.evidence_dir = evidence_dir or os.path.join(VERIF, 'evidence')
         self.explanation = ''
+        self.errors = []
         self.decides = []
         self.not_decided = []
 
@@ -77,6 +78,15 @@ class Report:
         if count < minimum:
             from .loader import AnalysisError
             raise AnalysisError('%s: instance floor not met for %s: found %d, confirmed by hand %d' % (rule, what, count, minimum))
+
+    def rule(self, fn, *args, **kw):
+        """run one rule function; an idiom it cannot classify is an analysis
+        error of that rule only and never masks violations found by others"""
+        from .loader import AnalysisError
+        try:
+            fn(*args, **kw)
+        except AnalysisError as ex:
+            self.errors.append('%s: %s' % (fn.__name__, ex))
 
     def note(self, key, value):
         self.notes[key] = value
@@ -167,7 +177,12 @@ class Report:
         os.makedirs(self.evidence_dir, exist_ok=True)
         with open(os.path.join(self.evidence_dir, '%s.json' % self.prop), 'w') as f:
             json.dump(ev, f, indent=1, default=str)
-        return (1 if seen_v else 0), lines, ev
+        for e in self.errors:
+            lines.append('ANALYSIS-ERROR property=%s %s' % (self.prop, e))
+        ev['coverage']['analysis_errors'] = list(self.errors)
+        with open(os.path.join(self.evidence_dir, '%s.json' % self.prop), 'w') as f:
+            json.dump(ev, f, indent=1, default=str)
+        return (1 if seen_v else (2 if self.errors else 0)), lines, ev
 
 
 def load_known():
